@@ -248,7 +248,17 @@
 //     (fields of untranslatable type are not part of the structure, fields not
 //     mentioned get their zero value); &T{…} is `some` of it;
 //   - `defer func() { err = errors.Annotate(err, …) }()` is dropped: it changes
-//     the text of a non-nil error only (nil stays nil).
+//     the text of a non-nil error only (nil stays nil);
+//   - the statements `copy(dst, src)`, `n = copy(dst, src)`, `n := copy(dst, src)`
+//     with dst a variable and both operands lists of the same element type:
+//     dst becomes `goCopy dst src` (its first min(len dst, len src) elements
+//     replaced by those of src, length unchanged) and the result is that
+//     minimum (`goCopyN`).  Lists are values: that dst shares its array with
+//     another slice (`dst := buf[2:]`) is NOT modelled — list dst under "out"
+//     to get its final contents and state the aliasing where it is used;
+//   - "list_slices" (per function): byte slices are lists of integers in this
+//     function even if the spec file has "abstract_bytes", and `xs[lo:hi]` on a
+//     list is take/drop also when the function is traced.
 //
 // Anything else is a translation error: the generated definition is replaced
 // by a marker that makes the Tie theorem fail, i.e. a broken obligation.
@@ -336,6 +346,10 @@ type TrFunc struct {
 	// one function parameter `f_<name>` (per callee) to the arguments of
 	// translatable type: the result depends on those arguments only.
 	Fn []string `json:"fn,omitempty"`
+	// ListSlices: in this function byte slices are lists of integers even when
+	// the spec file has "abstract_bytes", and `xs[lo:hi]` on a list is take/drop
+	// also when the function is traced (instead of an opaque value).
+	ListSlices bool `json:"list_slices,omitempty"`
 }
 
 type trSpecFile struct {
@@ -490,6 +504,9 @@ type translator struct {
 	// symb: the types declared symbolic one by one ("symbolic": {type: Lean type}).
 	symb map[string]string
 	refs bool // spec-file option "refs"
+	// fileAbsBytes: the spec file has "abstract_bytes" (absBytes is switched off
+	// while a function with "list_slices" is translated).
+	fileAbsBytes bool
 }
 
 type funcOut struct {
@@ -1144,7 +1161,8 @@ func (c *fctx) expr(e ast.Expr) ex {
 			}
 		}
 	}
-	if se, ok := e.(*ast.SliceExpr); ok && c.trace && !isString(c.typeOf(e)) {
+	if se, ok := e.(*ast.SliceExpr); ok && c.trace && !isString(c.typeOf(e)) &&
+		!(c.spec.ListSlices && strings.HasPrefix(c.t.leanType(c.typeOf(se.X)), "(List")) {
 		// re-slicing (capacity) is beyond the subset: an opaque value; a call
 		// operand is evaluated for the trace, then ("slice", [text with bounds])
 		pre := ""
@@ -2339,6 +2357,10 @@ func (c *fctx) rangeLoop(x *ast.RangeStmt, rest []ast.Stmt) string {
 			}
 		case *ast.IncDecStmt:
 			targets = []ast.Expr{s.X}
+		case *ast.CallExpr:
+			if c.isListCopy(s) {
+				targets = []ast.Expr{s.Args[0]} // copy(dst, src) assigns dst
+			}
 		case *ast.FuncLit:
 			return false
 		}
@@ -2597,11 +2619,19 @@ func (c *fctx) stmts(list []ast.Stmt) string {
 			return r
 		}), rest, nil)
 	case *ast.AssignStmt:
+		if len(x.Lhs) == 1 && len(x.Rhs) == 1 && (x.Tok == token.ASSIGN || x.Tok == token.DEFINE) {
+			if call, ok := x.Rhs[0].(*ast.CallExpr); ok && c.isListCopy(call) {
+				return c.copyStmt(x.Lhs[0], call, rest)
+			}
+		}
 		return c.assignStmt(x, rest)
 	case *ast.ExprStmt:
 		call, ok := x.X.(*ast.CallExpr)
 		if !ok {
 			fail("expression statement %s", c.show(x))
+		}
+		if c.isListCopy(call) {
+			return c.copyStmt(nil, call, rest)
 		}
 		if c.matches(c.spec.Ignore, call) {
 			return c.stmts(rest)
@@ -2719,6 +2749,36 @@ func (c *fctx) typeSwitch(x *ast.TypeSwitchStmt, rest []ast.Stmt) string {
 		closing++
 	}
 	return out + indent(c.stmts(deflt)) + strings.Repeat(")", closing)
+}
+
+// isListCopy reports whether call is the builtin `copy(dst, src)` with dst a
+// variable and both operands slices of the same translatable element type.
+func (c *fctx) isListCopy(call *ast.CallExpr) bool {
+	id, ok := call.Fun.(*ast.Ident)
+	if !ok || id.Name != "copy" || len(call.Args) != 2 {
+		return false
+	}
+	if _, isB := c.p.info.Uses[id].(*types.Builtin); !isB {
+		return false
+	}
+	_, isVar := call.Args[0].(*ast.Ident)
+	lt := c.t.leanType(c.typeOf(call.Args[0]))
+	return isVar && strings.HasPrefix(lt, "(List") && c.t.leanType(c.typeOf(call.Args[1])) == lt
+}
+
+// copyStmt translates `copy(dst, src)` / `n = copy(dst, src)` / `n := copy(dst, src)`
+// on lists: dst becomes `goCopy dst src` (its first min(len dst, len src)
+// elements replaced by those of src, same length), the result is that minimum.
+func (c *fctx) copyStmt(lhs ast.Expr, call *ast.CallExpr, rest []ast.Stmt) string {
+	d := leanIdent(call.Args[0].(*ast.Ident).Name)
+	return c.withEx(c.expr(call.Args[1]), func(src string) string {
+		n := c.tmp("n")
+		out := fmt.Sprintf("let %s : Int := goCopyN %s %s\nlet %s := goCopy %s %s\n", n, d, src, d, d, src)
+		if lhs == nil {
+			return out + c.stmts(rest)
+		}
+		return out + c.assignCode(lhs, n, func() string { return c.stmts(rest) })
+	})
 }
 
 func hasCall(e ast.Expr) (found bool) {
@@ -3221,6 +3281,11 @@ func (t *translator) translate(sp TrFunc) (fo *funcOut) {
 	}
 	fo = &funcOut{spec: sp, name: sp.Name, busy: true}
 	t.funcs[key] = fo
+	if t.fileAbsBytes {
+		// "list_slices": byte slices are lists in this function only
+		defer func(saved bool) { t.absBytes = saved }(t.absBytes)
+		t.absBytes = !sp.ListSlices
+	}
 	defer func() {
 		fo.busy, fo.done = false, true
 		if r := recover(); r != nil {
@@ -3540,7 +3605,7 @@ func runTranslator(specDir, outDir, harness, modfile string) error {
 	sort.Strings(props)
 	for _, prop := range props {
 		sf := specs[prop]
-		t := &translator{l: l, structs: map[string]*structDef{}, funcs: map[string]*funcOut{}, byDecl: map[string]TrFunc{}, symbolic: sf.Symbolic.All, symb: sf.Symbolic.Types, absBytes: sf.AbstractBytes, traceErrors: sf.TraceErrors, traceNew: sf.TraceNew, refs: sf.Refs}
+		t := &translator{l: l, structs: map[string]*structDef{}, funcs: map[string]*funcOut{}, byDecl: map[string]TrFunc{}, symbolic: sf.Symbolic.All, symb: sf.Symbolic.Types, absBytes: sf.AbstractBytes, fileAbsBytes: sf.AbstractBytes, traceErrors: sf.TraceErrors, traceNew: sf.TraceNew, refs: sf.Refs}
 		sanitizeColon = "_"
 		if sf.Refs {
 			sanitizeColon = ""
